@@ -1,14 +1,36 @@
 (* C13 -- load is invariant under changes that do not alter the document's meaning.
    Proofs: Proofs/Invariance.v, Proofs/Polymorph.v.
-   What is a theorem here: the changes of the TYPE MODEL at the position where they are made (abstract container
-   annotations, bool_union_fix, order of Union members).  Their propagation through enclosing types, the reordering of
-   class-mapping keys, re-serialisation in another style and the registration of unrelated classes are decided by the
-   metamorphic tie (implementation against itself on every generated case), not by theorems: the node model has no
-   style component, so style invariance of the MODEL is structural and says nothing about the code -- the tie does. *)
+   Theorems: (a) a load never consults a mark: trees that differ only in marks load alike (C13_marks_irrelevant) -- the
+   node model has no style component at all, marks (source positions) being the only trace of how the text was laid
+   out, so this is the model-level content of "re-serialised in another style with the same node tags"; that the
+   IMPLEMENTATION reads no style is what the metamorphic tie checks; (b) the changes of the TYPE MODEL at the position
+   where they are made (abstract container annotations, bool_union_fix, order of Union members).  Their propagation
+   through enclosing types, the reordering of class-mapping keys and the registration of unrelated classes are decided by
+   the metamorphic tie (implementation against itself on every generated case), not by theorems. *)
 From Coq Require Import NArith ZArith List Bool String Permutation.
 Import ListNotations.
-From Y Require Import Prelude Node Tables NodeOps Types Recognize Loader Spec Polymorph Invariance.
+From Y Require Import Prelude Node Tables NodeOps Types Recognize Loader Hooks Spec Polymorph Invariance Marks.
 Open Scope N_scope.
+
+(* Marks are never consulted: two node trees that differ only in their marks (eqm) load to the same value or fail with
+   the same exception class, at every type, for registries whose hooks do not look at marks themselves. *)
+Theorem C13_marks_irrelevant : forall o reg, hooks_mark_free reg ->
+  forall x y T, eqm x y -> load o reg (Some x) T = load o reg (Some y) T.
+Proof. intros o reg Hh x y T E. apply load_eqm; assumption. Qed.
+Print Assumptions C13_marks_irrelevant.
+(* ... at every node the same types are recognised, and processing yields trees that again differ only in marks *)
+Theorem C13_marks_irrelevant_recognition : forall o reg, hooks_mark_free reg ->
+  forall fuel x y T, eqm x y -> sameT (recognize o reg fuel x T) (recognize o reg fuel y T).
+Proof. intros o reg Hh fuel x y T E. exact (proj1 (recognize_eqm o reg Hh fuel) x y T E). Qed.
+Theorem C13_marks_irrelevant_processing : forall o reg, hooks_mark_free reg ->
+  forall fuel x y T, eqm x y -> eqmR (process o reg fuel x T) (process o reg fuel y T).
+Proof. intros o reg Hh. exact (process_eqm o reg Hh). Qed.
+(* which hooks qualify: none at all, and every recogniser written with UnknownNode.require_* calls *)
+Theorem C13_hook_free_registries_qualify : forall reg,
+  (forall k, In k reg -> c_recognize k = None /\ c_savorize k = None) -> hooks_mark_free reg.
+Proof. exact no_hooks_mark_free. Qed.
+Theorem C13_dsl_recognisers_qualify : forall o prog, hook_rec_ok (fun recog n => run_recognizer o recog prog n).
+Proof. exact dsl_recogniser_mark_free. Qed.
 
 (* List / Sequence / MutableSequence are interchangeable: processing a node as one or the other gives the same node,
    for nodes of every size (elements processed identically). *)
